@@ -6,6 +6,7 @@ generator draws them from `range(rows*cols)`; a negative index would be wrapped 
 -/
 import JumanjiModel.Env.Minesweeper.Lemmas
 import JumanjiModel.Env.Minesweeper.BoundsLemmas
+import JumanjiModel.Env.Minesweeper.Episode
 open Jm Jx Minesweeper
 
 namespace Props.C04
@@ -82,6 +83,78 @@ theorem minesweeper_objective_counters (cfg : Cfg) (s : State) (nr nc : Nat)
     safeRevealed (step cfg s r c).1 = safeRevealed s + (if isMine s r c then 0 else 1) ∧
     minesRevealed (step cfg s r c).1 = minesRevealed s + (if isMine s r c then 1 else 0) :=
   Minesweeper.counters_step cfg s nr nc hs hms r c hr hc hl
+/-- WHOLE EPISODE, from any consistent state (C07 invariant) along ANY list of in-spec actions, played with the L1
+`step` until the first LAST time step (`play`: the episode may end by revealing a mine, by an invalid action, by
+clearing the board, or the action list may run out before that):
+  return + rEmpty · (safe squares revealed at the start) = rEmpty · (safe squares revealed at the end) + terminal term,
+terminal term = `rMine` if it ended on a mine, `rInvalid` if it ended on an already revealed square, 0 otherwise -/
+theorem minesweeper_play_return (cfg : Cfg) (s : State) (hcs : Consistent cfg s) (as : List (Nat × Nat))
+    (hin : ∀ a ∈ as, a.1 < cfg.numRows ∧ a.2 < cfg.numCols) :
+    (play cfg s as).ret + cfg.rEmpty * (safeRevealed s : Rat) =
+      cfg.rEmpty * (safeRevealed (play cfg s as).final : Rat) + terminalTerm cfg (play cfg s as).ending :=
+  Minesweeper.play_return cfg s hcs as hin
+
+/-- WHOLE EPISODE from a generated instance (all board sizes, all mine tables, all action sequences):
+return = (number of safe squares revealed) × revealed_empty_square_reward + the terminal term (mine / invalid-action
+reward), which is the documented objective recomputed from the final state (plus the invalid-action reward when
+the episode ended that way) -/
+theorem minesweeper_episode_return (cfg : Cfg) (s : State) (h : InstanceOK cfg s) (as : List (Nat × Nat))
+    (hin : ∀ a ∈ as, a.1 < cfg.numRows ∧ a.2 < cfg.numCols) :
+    (play cfg s as).ret =
+      cfg.rEmpty * (safeRevealed (play cfg s as).final : Rat) + terminalTerm cfg (play cfg s as).ending ∧
+    (play cfg s as).ret = objective cfg (play cfg s as).final +
+      (if (play cfg s as).ending = .invalid then cfg.rInvalid else 0) :=
+  Minesweeper.episode_return cfg s h as hin
+
+/-- the same for the transliterated generator: every valid draw of mines, every action sequence -/
+theorem minesweeper_episode_return_generated (cfg : Cfg) (d : List Nat) (hd : validDraw cfg d)
+    (as : List (Nat × Nat)) (hin : ∀ a ∈ as, a.1 < cfg.numRows ∧ a.2 < cfg.numCols) :
+    (play cfg (generate cfg d) as).ret =
+      cfg.rEmpty * (safeRevealed (play cfg (generate cfg d) as).final : Rat) +
+        terminalTerm cfg (play cfg (generate cfg d) as).ending :=
+  (Minesweeper.episode_return cfg _ (Minesweeper.generate_instanceOK cfg d hd) as hin).1
+
+/-- what the endings mean: `.cleared` = the final board is solved (all safe squares revealed); a mine is revealed
+exactly when the episode ended on one (and then exactly one) -/
+theorem minesweeper_episode_ending (cfg : Cfg) (s : State) (hcs : Consistent cfg s) (as : List (Nat × Nat))
+    (hin : ∀ a ∈ as, a.1 < cfg.numRows ∧ a.2 < cfg.numCols) :
+    ((play cfg s as).ending = .cleared → isSolved (play cfg s as).final = true) ∧
+    minesRevealed (play cfg s as).final = (if (play cfg s as).ending = .mine then 1 else 0) :=
+  Minesweeper.play_ending cfg s hcs as hin
+
+/-- … and `.running` = no LAST step met: every action revealed one more safe square -/
+theorem minesweeper_episode_running (cfg : Cfg) (s : State) (hcs : Consistent cfg s) (as : List (Nat × Nat))
+    (hin : ∀ a ∈ as, a.1 < cfg.numRows ∧ a.2 < cfg.numCols) (hrun : (play cfg s as).ending = .running) :
+    safeRevealed (play cfg s as).final = safeRevealed s + as.length ∧ Consistent cfg (play cfg s as).final :=
+  Minesweeper.play_running cfg s hcs as hin hrun
+
+/-- with revealed_empty_square_reward = 1 (the default) an episode that does not end on a mine or an invalid move
+returns exactly the number of safe squares revealed, whatever the other two reward constants are -/
+theorem minesweeper_return_eq_safe_revealed (cfg : Cfg) (s : State) (h : InstanceOK cfg s) (as : List (Nat × Nat))
+    (hin : ∀ a ∈ as, a.1 < cfg.numRows ∧ a.2 < cfg.numCols) (h1 : cfg.rEmpty = 1)
+    (hm : (play cfg s as).ending ≠ .mine) (hi : (play cfg s as).ending ≠ .invalid) :
+    (play cfg s as).ret = (safeRevealed (play cfg s as).final : Rat) := by
+  rw [(Minesweeper.episode_return cfg s h as hin).1, h1, Rat.one_mul]
+  cases he : (play cfg s as).ending <;> simp_all [terminalTerm, Rat.add_zero]
+
+/-- with all three default constants (1, 0, 0) this holds for EVERY ending -/
+theorem minesweeper_default_return_eq_safe_revealed (cfg : Cfg) (s : State) (h : InstanceOK cfg s)
+    (as : List (Nat × Nat)) (hin : ∀ a ∈ as, a.1 < cfg.numRows ∧ a.2 < cfg.numCols) (h1 : cfg.rEmpty = 1)
+    (h2 : cfg.rMine = 0) (h3 : cfg.rInvalid = 0) :
+    (play cfg s as).ret = (safeRevealed (play cfg s as).final : Rat) := by
+  rw [(Minesweeper.episode_return cfg s h as hin).1, h1, Rat.one_mul]
+  cases he : (play cfg s as).ending <;> simp [terminalTerm, Rat.add_zero, h2, h3]
+
+-- 2×3 board, mines at flat 1 and 5, rewards (1/2, -1, -2): reveal (0,0), (1,0), then the mine (0,1): return 1/2+1/2-1;
+-- reveal (0,0) twice: ends on the invalid move with 1/2-2; all four safe squares: cleared with return 2
+example : InstanceOK ⟨2, 3, 2, 1/2, -1, -2⟩ (generate ⟨2, 3, 2, 1/2, -1, -2⟩ [5, 1]) ∧
+    (play ⟨2, 3, 2, 1/2, -1, -2⟩ (generate ⟨2, 3, 2, 1/2, -1, -2⟩ [5, 1]) [(0, 0), (1, 0), (0, 1), (1, 1)]).ending = .mine ∧
+    (play ⟨2, 3, 2, 1/2, -1, -2⟩ (generate ⟨2, 3, 2, 1/2, -1, -2⟩ [5, 1]) [(0, 0), (1, 0), (0, 1), (1, 1)]).ret = 0 ∧
+    (play ⟨2, 3, 2, 1/2, -1, -2⟩ (generate ⟨2, 3, 2, 1/2, -1, -2⟩ [5, 1]) [(0, 0), (0, 0)]).ending = .invalid ∧
+    (play ⟨2, 3, 2, 1/2, -1, -2⟩ (generate ⟨2, 3, 2, 1/2, -1, -2⟩ [5, 1]) [(0, 0), (0, 0)]).ret = -3/2 ∧
+    (play ⟨2, 3, 2, 1/2, -1, -2⟩ (generate ⟨2, 3, 2, 1/2, -1, -2⟩ [5, 1]) [(0, 0), (1, 0), (0, 2), (1, 1), (0, 1)]).ending = .cleared ∧
+    (play ⟨2, 3, 2, 1/2, -1, -2⟩ (generate ⟨2, 3, 2, 1/2, -1, -2⟩ [5, 1]) [(0, 0), (1, 0), (0, 2), (1, 1), (0, 1)]).ret = 2 := by
+  decide +kernel
 end Props.C08
 
 namespace Props.C09
@@ -125,6 +198,30 @@ theorem minesweeper_instance_cert (cfg : Cfg) (s : State) (h : InstanceOK cfg s)
   ⟨h.2.2.2.1, h.2.2.2.2.1, h.2.2.2.2.2, Minesweeper.reset_consistent cfg s h⟩
 
 example : InstanceOK ⟨2, 3, 2, 1, 0, 0⟩ ⟨[[-1, -1, -1], [-1, -1, -1]], 0, [5, 1]⟩ := by decide
+/-- the TRANSLITERATED generator (`Generator.__call__` + `create_flat_mine_locations` = `jax.random.choice(key,
+rows*cols, (num_mines,), replace=False)`, the drawn locations being the parameter): for ALL sizes and ALL valid draws
+(`num_mines` distinct flat indices below rows·cols) the generated state has exactly `num_mines` distinct mines, all on
+the board, the board is `rows × cols` and entirely unexplored (all −1), step_count is 0 — and it is a consistent start
+state.  `minesweeper.instance` replays `generate` on the draw read off every real reset state. -/
+theorem minesweeper_generate_cert (cfg : Cfg) (d : List Nat) (hd : validDraw cfg d) :
+    (generate cfg d).mines.length = cfg.numMines ∧ (generate cfg d).mines.Nodup ∧
+    (∀ m ∈ (generate cfg d).mines, 0 ≤ m ∧ m < ((cfg.numRows * cfg.numCols : Nat) : Int)) ∧
+    Grid.shaped (generate cfg d).board cfg.numRows cfg.numCols = true ∧
+    Grid.all (fun v => v == -1) (generate cfg d).board = true ∧ (generate cfg d).stepCount = 0 ∧
+    InstanceOK cfg (generate cfg d) ∧ Consistent cfg (generate cfg d) := by
+  have h := Minesweeper.generate_instanceOK cfg d hd
+  exact ⟨h.2.2.2.1, h.2.2.2.2.1, h.2.2.2.2.2, h.1, h.2.1, h.2.2.1, h, Minesweeper.reset_consistent cfg _ h⟩
+
+/-- conversely the certificate `InstanceOK` is exactly the range of the generator: a state passes it iff it is
+`generate cfg d` for a valid draw `d` (the one read off its mine table) -/
+theorem minesweeper_instance_iff_generated (cfg : Cfg) (s : State) :
+    InstanceOK cfg s ↔ ∃ d, validDraw cfg d ∧ generate cfg d = s :=
+  ⟨fun h => ⟨drawOf s, Minesweeper.instanceOK_is_generated cfg s h⟩,
+   fun ⟨d, hd, e⟩ => e ▸ Minesweeper.generate_instanceOK cfg d hd⟩
+
+example : validDraw ⟨2, 3, 2, 1, 0, 0⟩ [5, 1] ∧
+    generate ⟨2, 3, 2, 1, 0, 0⟩ [5, 1] = ⟨[[-1, -1, -1], [-1, -1, -1]], 0, [5, 1]⟩ ∧
+    ¬ validDraw ⟨2, 3, 2, 1, 0, 0⟩ [5, 5] ∧ ¬ validDraw ⟨2, 3, 2, 1, 0, 0⟩ [6, 1] := by decide
 end Props.C10
 
 namespace Props.C11
